@@ -16,11 +16,17 @@ witnesses validate the encoding.
 import builtins
 import fractions
 import math
+import sys
 import threading
 import time
 
 import numpy as _np
 import z3
+
+try:
+    sys.set_int_max_str_digits(0)      # models may contain rationals with thousands of digits
+except AttributeError:
+    pass
 
 __all__ = ['Engine', 'ConcreteEngine', 'SymNum', 'SymBool', 'PathAbort', 'symfloat',
            'is_sym', 'current', 'zval']
